@@ -184,19 +184,44 @@ def atan2(y, x):
     return r
 
 
+def _acos_arg(a):
+    """x if the value a is the term acos*(x) (then cos a = x, sin a = sqrt(1 - x^2) on [-1, 1])"""
+    if isinstance(a, SymReal) and z3.is_app(a.z) and a.z.decl().eq(ACOS):
+        return SymReal(a.z.arg(0))
+    return None
+
+
 def _sin(a):
+    if a is POISON:
+        return POISON
     if isinstance(a, Angle):
         return a.s
     if is_conc(a) and a == 0:
         return 0
+    x = _acos_arg(a)
+    if x is not None:
+        return sym_sqrt(1 - x * x)
+    if is_conc(a):
+        for c, v in ((PI, 0), (PI / 2, 1)):
+            if a == c:
+                return v
     raise NotEncodable("sin of a non-angle value")
 
 
 def _cos(a):
+    if a is POISON:
+        return POISON
     if isinstance(a, Angle):
         return a.c
     if is_conc(a) and a == 0:
         return 1
+    x = _acos_arg(a)
+    if x is not None:
+        return x
+    if is_conc(a):
+        for c, v in ((PI, -1), (PI / 2, 0)):
+            if a == c:
+                return v
     raise NotEncodable("cos of a non-angle value")
 
 
